@@ -18,7 +18,7 @@ import collections
 
 HERE = os.path.dirname(os.path.dirname(os.path.abspath(__file__)))
 OUT = os.path.join(HERE, "out")
-EVID = os.path.join(HERE, "evidence")
+EVID = os.environ.get("VF_EVIDENCE_DIR") or os.path.join(HERE, "evidence")
 PY = "/venv/bin/python"
 
 
